@@ -1,4 +1,23 @@
-/- dsmodel_life: model driver stub (filled in when the family is built). -/
-def main (_args : List String) : IO UInt32 := do
-  IO.eprintln "dsmodel_life: not built yet"
-  return 2
+/- dsmodel_life: the C19 heap-calculus model of the hand-managed classes, driven by lifecycle histories. -/
+import DSModel.Life.Driver
+import DSModel.DriverLoop
+import DSGen.Life
+open DS DS.Life
+
+def lifeCfg : Cfg :=
+  { theta := { rszNum := DSGen.life_theta_RESIZE_THRESHOLD_num, rszDen := DSGen.life_theta_RESIZE_THRESHOLD_den,
+               rbdNum := DSGen.life_theta_REBUILD_THRESHOLD_num, rbdDen := DSGen.life_theta_REBUILD_THRESHOLD_den,
+               strideBits := DSGen.life_theta_STRIDE_HASH_BITS, minLgK := DSGen.life_theta_MIN_LG_K },
+    thetaMaxLgK := DSGen.life_theta_MAX_LG_K,
+    kll := { defaultM := DSGen.life_kll_DEFAULT_M, minK := DSGen.life_kll_MIN_K, maxK := DSGen.life_kll_MAX_K },
+    fi := { loadNum := DSGen.life_fi_LOAD_FACTOR_num, loadDen := DSGen.life_fi_LOAD_FACTOR_den,
+            driftLimit := DSGen.life_fi_DRIFT_LIMIT, maxSample := DSGen.life_fi_MAX_SAMPLE_SIZE,
+            lgMinMap := DSGen.life_fi_LG_MIN_MAP_SIZE,
+            hashOf := fun v => (fmix64 (UInt64.ofNat v)).toNat,
+            strideOf := fun lg => ((Float.ofNat (2 ^ lg) * 0.6180339887498949).toUInt32.toNat) ||| 1 },
+    comb := fun old v => old + v }
+
+def main (args : List String) : IO UInt32 := do
+  match args with
+  | ["life"] | [] => runDriver World.init (stepLine lifeCfg)
+  | _ => IO.eprintln "usage: dsmodel_life life"; return 2
